@@ -187,7 +187,7 @@ def stream_definitions(ctx, db, est, k, defs, key="L0", arity=1, build_args=None
                 try:
                     got = alg.acc(s, name, *args)
                 except PathEnd as e:
-                    if e.status == "panic" and any(c[0] == "fcmp" and c[1] in ("Eq", "Ne") for c in m.pc):
+                    if e.status == "panic" and any(c[0] == "fcmp" and ((c[1] == "Eq" and c[4]) or (c[1] == "Ne" and not c[4])) for c in m.pc):
                         # the documented zero-variance assertion (a data equality holds on this path)
                         raise PathEnd("infeasible")
                     if e.status == "panic":
@@ -216,8 +216,9 @@ def stream_definitions(ctx, db, est, k, defs, key="L0", arity=1, build_args=None
             if isinstance(got, tuple) and got and got[0] == "panic":
                 ctx.ob("R-LAW", k2, fn, fsite, False, "%s panics on a stream of %d observations (%s)" % (lab, k, got[1]))
                 continue
-            if p.pc and any(e[0] == "fcmp" and e[1] in ("Eq", "Ne") for e in p.pc):
-                # measure-zero branches (e.g. third central sum exactly 0) are decided by R-SENTINEL/R-CONST
+            if p.pc and any(e[0] == "fcmp" and ((e[1] == "Eq" and e[4]) or (e[1] == "Ne" and not e[4])) for e in p.pc):
+                # measure-zero branches (a data equality such as `third central sum == 0` holds) are
+                # decided by R-SENTINEL/R-CONST; the generic branch is compared below
                 continue
             try:
                 ok, diff = pit.identical([(lab, got, want)], seed=seed, points=3, squares=False, integers=True)
